@@ -28,7 +28,7 @@ Ident(n) == [i \in 1..n |-> i - 1]
 
 NeedsKeep == {"divide", "filter", "distribute"}
 NeedsSize == {"rebatch", "divide", "filter", "distribute", "batchover", "pair", "fragments", "merge"}
-AnyArrival == {"fragments", "merge", "sort", "rebatch", "filterempty", "divide", "filter", "distribute", "pair", "workers", "complete"}
+AnyArrival == {"limitmemory", "copytee", "fragments", "merge", "sort", "rebatch", "filterempty", "divide", "filter", "distribute", "pair", "workers", "complete"}
 TwoStreams == {"concat", "pair"}
 
 Init ==
@@ -52,6 +52,8 @@ Compute ==
   LET inp == MkInp(c.sizes) IN
   CASE c.op = "sort"        -> SortOut(inp)
     [] c.op = "workers"     -> SortOut(inp)       \* identity worker, then SortBatches
+    [] c.op = "limitmemory" -> SortOut(inp)       \* pass-through (same batches, same numbers, any emission order)
+    [] c.op = "copytee"     -> SortOut(inp)       \* each of the TWO outputs carries every batch once
     [] c.op = "rebatch"     -> RebatchOut(inp, c.size)
     [] c.op = "filterempty" -> FilterEmptyOut(inp)
     [] c.op = "filter"      -> FilterOut(inp, c.keep, c.size)
@@ -83,7 +85,7 @@ WellCut(bs, size) == \A i \in 1..Len(bs) :
 ContractHolds == phase = "done" => \A s \in Streams : OrderContract(s)
 NothingLostOrAdded == phase = "done" =>
   LET inp == MkInp(c.sizes) IN
-  CASE c.op \in {"sort", "workers", "rebatch", "filterempty", "batchover", "complete"} -> Records(out) = Flat(inp)
+  CASE c.op \in {"sort", "workers", "limitmemory", "copytee", "rebatch", "filterempty", "batchover", "complete"} -> Records(out) = Flat(inp)
     [] c.op = "fragments" -> \A r \in {Flat(inp)[i] : i \in 1..Len(Flat(inp))} :
                                  FragsCover(SelectSeq(Records(out), LAMBDA f : f[1] = r), FragLens[r])
     [] c.op = "merge" -> LET RECURSIVE Sum(_) Sum(q) == IF q = <<>> THEN 0 ELSE Head(q) + Sum(Tail(q))
